@@ -11,7 +11,7 @@ clock advances.  `noWrap`: times stay below the uint32 horizon of
 wraps around, which is outside these theorems.
 Concurrent logins racing between `check` and `inc` are outside the model.
 -/
-import AGH.Lemmas.AuthConc
+import AGH.Lemmas.AuthCodec
 namespace AGH.C12
 
 /-- **The model meets the spec**: for every configuration and every timed
@@ -106,7 +106,8 @@ restart or a successful login from `a`, or `a` never failed), followed by ANY
 history `evs1` without a restart and without a successful login from `a`, in
 which exactly `max` wrong passwords from `a` were evaluated (answered 403),
 all within one minute of the first of them.  Then every login attempt from `a`
-— right or wrong password, any proxy headers — made after `evs1` and before
+— right or wrong password, any proxy headers; for HTTP Basic credentials see
+`C12_threshold_run_basic` — made after `evs1` and before
 the block period since the last of those failures has elapsed is answered
 429, the password is not evaluated, no session is created.  Other addresses,
 requests, logouts and clock advances may be interleaved arbitrarily; no time
@@ -168,6 +169,98 @@ theorem C12_threshold_run (ma bm ttl t0 : Nat) (evs0 evs1 : List Ev) (a : Nat) (
       Bool.not_eq_true', decide_eq_true_eq]
     exact ⟨⟨by simpa using hne, by omega⟩, hblk⟩
   exact threshold_thr hthrB req good user hrej
+
+/-- **Blocked means not evaluated — for BOTH forms of login** (POST
+/control/login and HTTP Basic credentials on any request, the latter with
+/verif/fixes/c12/basic_auth_throttle.patch), in every reachable state: while
+the spec counts ≥ max failures of the address — failures of EITHER form, the
+histories are mixed — and the block period has not elapsed, neither form gets
+its password evaluated, neither authenticates, right password included. -/
+theorem C12_blocked_not_evaluated {st : St} {sp : Spec} {now : Nat} (h : Sim st sp now) (req : Req)
+    (good : Bool) (user : Nat) (hrej : mustReject sp (attemptAddr req) now = true) :
+    ((∃ r, (handleLogin st now req good user).1 = .tooMany r) ∧
+      (handleLogin st now req good user).2.evals = st.evals) ∧
+    ((∃ r, (basicAuthX true st now req good).1 = .tooMany r) ∧
+      (basicAuthX true st now req good).2.evals = st.evals) :=
+  ⟨⟨(threshold_thr h.1 req good user hrej).1, (threshold_thr h.1 req good user hrej).2.1⟩,
+   threshold_thr_basic h.1 req good hrej⟩
+
+/-- the run theorem's conclusion for a Basic-auth attempt: after `max` evaluated
+failures of either form within a minute (see `C12_threshold_run`; its history
+may mix both forms, `failTimes`/`noClear`/`cleanAfter` count both) a request
+with Basic credentials is refused unevaluated as well -/
+theorem C12_threshold_run_basic (ma bm ttl t0 : Nat) (evs0 evs1 : List Ev) (a : Nat) (hen : ma > 0 ∧ bm > 0)
+    (hclean : cleanAfter a true (traceM (St.init ma bm ttl) t0 evs0) = true)
+    (hnc : noClear a (traceM (runM (St.init ma bm ttl) t0 evs0).1 (runM (St.init ma bm ttl) t0 evs0).2 evs1) = true)
+    (fs : List Nat)
+    (hfs : failTimes a (traceM (runM (St.init ma bm ttl) t0 evs0).1 (runM (St.init ma bm ttl) t0 evs0).2 evs1) = fs)
+    (hlen : fs.length = ma) (hwin : ∀ t ∈ fs, t ≤ fs.headD 0 + failedAuthTTL)
+    (d : Nat) (req : Req) (hreq : attemptAddr req = a) (good : Bool) :
+    let s0 := runM (St.init ma bm ttl) t0 evs0
+    let s1 := runM s0.1 s0.2 evs1
+    s1.2 + d < fs.getLastD 0 + bm * 60 * nsPerSec →
+    (∃ r, (basicAuthX true s1.1 (s1.2 + d) req good).1 = .tooMany r) ∧
+    (basicAuthX true s1.1 (s1.2 + d) req good).2.evals = s1.1.evals := by
+  intro s0 s1 hblk
+  let sp0 := Spec.init ma bm ttl
+  have hthr0 : SimThr (St.init ma bm ttl) sp0 t0 := (sim_init ma bm ttl t0).1
+  let rA := runLock (St.init ma bm ttl) sp0 t0 evs0
+  have hmA := runLock_model evs0 (St.init ma bm ttl) sp0 t0
+  have hthrA : SimThr s0.1 rA.2.1 s0.2 := by
+    have := simThr_runLock evs0 _ sp0 t0 hthr0
+    rw [hmA.1, hmA.2] at this; exact this
+  have hconfA := runLock_conf evs0 (St.init ma bm ttl) sp0 t0
+  have hcleanA : failsOf rA.2.1 a = [] :=
+    failsOf_clean a evs0 _ sp0 t0 true (fun _ => rfl) hclean
+  let rB := runLock s0.1 rA.2.1 s0.2 evs1
+  have hmB := runLock_model evs1 s0.1 rA.2.1 s0.2
+  have hconfB := runLock_conf evs1 s0.1 rA.2.1 s0.2
+  have hmaxB : rB.2.1.max = ma := by rw [hconfB.2.1, hconfA.2.1]; rfl
+  have hbdB : rB.2.1.blockDur = bm * 60 * nsPerSec := by rw [hconfB.2.2, hconfA.2.2]; rfl
+  have henB : rB.2.1.enabled = true := by
+    rw [hconfB.1, hconfA.1]; simp [sp0, Spec.init, hen]
+  have hfB : failsOf rB.2.1 a = fs := by
+    have := failsOf_run a evs1 s0.1 rA.2.1 s0.2 [] hcleanA hnc
+      (by rw [hfs, hconfA.2.1]; simp [sp0, Spec.init, hlen])
+      (by rw [hfs]; simpa using hwin)
+    rw [hfs] at this; simpa using this
+  have hthrB : SimThr s1.1 rB.2.1 (s1.2 + d) := by
+    have := simThr_runLock evs1 s0.1 rA.2.1 s0.2 hthrA
+    rw [hmB.1, hmB.2] at this
+    exact simThr_advance d this
+  have hne : fs ≠ [] := by
+    intro e; rw [e] at hlen; simp at hlen; omega
+  have hrej : mustReject rB.2.1 (attemptAddr req) (s1.2 + d) = true := by
+    rw [hreq]
+    have hc : counted rB.2.1 a (s1.2 + d) =
+        if stillCounts rB.2.1 (failsOf rB.2.1 a) (s1.2 + d) = true then failsOf rB.2.1 a else [] := rfl
+    have hun : untilOf rB.2.1 fs = fs.getLastD 0 + bm * 60 * nsPerSec := by
+      simp [untilOf, hmaxB, hbdB, hlen]
+    have hst : stillCounts rB.2.1 fs (s1.2 + d) = true := by
+      simp only [stillCounts, Bool.and_eq_true, Bool.not_eq_true', decide_eq_true_eq, hun]
+      exact ⟨by simpa using hne, by omega⟩
+    simp only [mustReject, hc, hfB, hst, if_true, henB, hmaxB, hbdB, Bool.true_and, Bool.and_eq_true,
+      Bool.not_eq_true', decide_eq_true_eq]
+    exact ⟨⟨by simpa using hne, by omega⟩, hblk⟩
+  exact threshold_thr_basic hthrB req good hrej
+
+/-- **Without the Basic-auth repair** (the tree before
+basic_auth_throttle.patch; `fixB = false`): limit 2, two wrong passwords at
+the login form block the address — the right password gets 429 there — yet
+Basic credentials are still evaluated, a wrong one is not counted and the right
+one authenticates. -/
+theorem C12_unpatched_basic_auth_unthrottled :
+    let t := 946684800 * nsPerSec
+    let r : Req := ⟨0, none, false⟩
+    let st2 := (handleLogin (handleLogin (St.init 2 15 3600) t r false 0).2 t r false 0).2
+    (handleLogin st2 t r true 0).1 = .tooMany 900 ∧
+    (basicAuthX false st2 t r false).1 = .forbidden ∧
+    (basicAuthX false st2 t r true).1 = .passed ∧
+    (basicAuthX false st2 t r true).2.evals = st2.evals + 1 ∧
+    -- with the repair: refused unevaluated
+    (basicAuthX true st2 t r true).1 = .tooMany 900 ∧
+    (basicAuthX true st2 t r true).2.evals = st2.evals := by
+  decide
 
 /-- **The minute is anchored, not sliding** (limit 3, block 1 min): wrong
 passwords at 0 s, 50 s, 70 s and 100 s.  The count started at 0 s dies at
@@ -418,11 +511,51 @@ theorem C12_counterexample_uint32_horizon :
     specOK sp1 t2 (.request 0) (.auth true) = false := by
   decide
 
+/-- **An alternative comparison, NOT the tree's code** (the serial-number
+comparison of the rejected session_expiry_serial_compare.patch, see
+/verif/fixes/c12/README.md) would decide expiry exactly, for real, unbounded times:
+a session whose real expiry `E` is at most `ttl` ahead of the clock (always
+true: expiries are creation/last use + ttl) and that is looked at less than
+2^32 − ttl seconds (~136 years) after `E` is found expired exactly when
+`E ≤ now` — no absolute date (2106) enters any more. -/
+theorem C12_fixed_expiry_exact (E nowS ttl : Nat) (httl : ttl < u32) (hE : E ≤ nowS + ttl)
+    (hgap : E ≤ nowS → nowS - E < u32 - ttl) :
+    expiredAt true (E % u32) (nowS % u32) ttl = decide (E ≤ nowS) :=
+  expiredAt_fixed_exact E nowS ttl httl hE hgap
+
+/-- (alternative comparison, not the tree's code) the witness of
+`C12_counterexample_uint32_horizon` against the serial-number comparison: the expired session is refused after the clock has wrapped, also
+after a restart; and an expiry that wraps at creation works until it is due -/
+theorem C12_fixed_horizon_witness :
+    let t1 := (u32 - 2000) * nsPerSec
+    let t2 := (u32 + 1000) * nsPerSec
+    let st1 := (step (St.init 0 0 1000) t1 (.login ⟨0, none, false⟩ true 0)).2
+    (stepFX true true st1 t2 true (.request 0)).1 = .auth false ∧
+    (stepFX true true (stepFX true true st1 t2 true .restart).2 t2 true (.request 0)).1 = .auth false ∧
+    (let t3 := (u32 - 500) * nsPerSec
+     let st3 := (step (St.init 0 0 1000) t3 (.login ⟨0, none, false⟩ true 0)).2
+     (stepFX true true st3 (t3 + 999 * nsPerSec) true (.request 0)).1 = .auth true ∧
+     (stepFX true true st3 (t3 + 1000 * nsPerSec) true (.request 0)).1 = .auth false) := by
+  decide
+
+/-- **The sessions.db record round-trips**: `deserialize (serialize s) = s`
+for every expiry below 2^32 and every user name shorter than 65536 bytes; a
+record shorter than six bytes is rejected. -/
+theorem C12_session_codec (name : List Nat) (expire : Nat) (he : expire < u32) (hn : name.length < 65536) :
+    decodeSess (encodeSess name expire) = some (name, expire) ∧
+    ∀ d : List Nat, d.length < 6 → decodeSess d = none :=
+  ⟨decode_encode name expire he hn, decode_short⟩
+
 /-! ### failing writes to sessions.db -/
 
 /-- without write failures the fallible model is the model -/
 theorem C12_faultfree_step (st : St) (now : Nat) (o : Op) : stepF st now true o = step st now o :=
   stepF_true st now o
+
+/-- the driver's model at code level (no horizon repair, Basic-auth repair) is `stepF` -/
+theorem C12_code_level_step (st : St) (now : Nat) (dbOK : Bool) (o : Op) :
+    stepFX false true st now dbOK o = stepF st now dbOK o :=
+  stepFX_false st now dbOK o
 
 /-- **A logout whose file delete fails still ends the session in memory**: the
 token is not found by any check until the next restart (whatever happens to
